@@ -34,15 +34,16 @@ ACTIONS = ("PoseLaw", "PoseGrid", "PoseBurn", "PoseImp", "ApplyImpulse", "Append
 
 
 # ------------------------------------------------------------------ TLC side
-def cfg_text(invs=ALL_INVS, emit: str = "", **kw) -> str:
+def cfg_text(invs=ALL_INVS, emit: str = "", props=("OutputsImmutable",), **kw) -> str:
     d = dict(Mode='"steps"', Horizon=12, StepLens="{1, 2, 3, 4, 6}", MaxSteps=4, Ks="{1}", MaxInterior=0,
              MaxCalls=0, Laws="LawsQuick", Kinds="KindsBurn", BurnChoice='"closed"', WithNoBurn="TRUE",
-             FirstStart=1, OnlyFirstStart="FALSE", EndNeedsLanding="FALSE", EndMasksStart="FALSE", CallerMayDrop="FALSE", StaleThrust="FALSE", ImpChoice='"none"', ImpDvs="{0, 1}", FirstRootOnly="FALSE", EmitTag=f'"{emit}"')
+             FirstStart=1, OnlyFirstStart="FALSE", EndNeedsLanding="FALSE", EndMasksStart="FALSE", CallerMayDrop="FALSE", StaleThrust="FALSE", ImpChoice='"none"', ImpDvs="{0, 1}", FirstRootOnly="FALSE", Layouts="LayoutsC", EmitTag=f'"{emit}"')
     d.update(kw)
     lines = ["SPECIFICATION Spec", "CONSTANTS"]
     for k, v in d.items():
-        lines.append(f"  {k} <- {v}" if k in ("Laws", "Kinds") else f"  {k} = {v}")
+        lines.append(f"  {k} <- {v}" if k in ("Laws", "Kinds", "Layouts") else f"  {k} = {v}")
     lines += [f"INVARIANT {i}" for i in invs]
+    lines += [f"PROPERTY {q}" for q in props]
     if emit:
         lines.append("INVARIANT Emit")
     return "\n".join(lines) + "\n"
@@ -54,7 +55,7 @@ def run_spec(ctx, name: str, purpose: str, *, emit: str = "BEH", workers=None, *
                       timeout=3000)
     tlc.require_ok(res, name)
     ctx.add_tlc(res, purpose)
-    for inv, states in res.invariant_violations:
+    for inv, states in res.invariant_violations + res.property_violations:
         raise tlc.MachineryError(f"Kinematics.tla theorem {inv} fails at spec level ({name}):\n" + "\n".join(states[-1:]))
     if not res.ok:
         raise tlc.MachineryError(f"TLC run {name} not ok:\n" + res.stdout[-1500:])
